@@ -38,7 +38,7 @@ DECODE_SCRIPT = [
     'case(url::Url::path_segments(url) ~ Some(_)) > unless(is_empty(std::option::Option::unwrap(%s))) > $m0 = %svirtual_host($m0, %sdecode::percent_decode(std::option::Option::unwrap(%s)))' % (SEG, OPT, U, SEG),
     'case(url::Url::path_segments(url) ~ Some(_)) > case(%s ~ Some(_)) > return errors::ExtraUrlPathSegmentsSnafu::fail(errors::ExtraUrlPathSegmentsSnafu{url: url})' % SEG,
     'if((!is_empty(url::Url::username(url)) || (url::Url::password(url) ~ Some(_)))) > $m0 = %sauth($m0, auth::Auth::Plain{password: %sdecode::percent_decode(std::option::Option::unwrap_or(url::Url::password(url), "guest")), '
-    'username: %sdecode::percent_decode(match url::Url::username(url) {"" => "guest"; _ => url::Url::username(url)})})' % (OPT, U, U),
+    'username: %sdecode::percent_decode(if is_empty(url::Url::username(url)) {"guest"} else {url::Url::username(url)})})' % (OPT, U, U),
     'for(%s) > case(%s ~ "heartbeat") > $m0 = %sheartbeat($m0, %s)' % (QP, K, OPT, parse_to('u16', 'UrlParseHeartbeat')),
     'for(%s) > case(%s ~ "channel_max") > $m0 = %schannel_max($m0, %s)' % (QP, K, OPT, parse_to('u16', 'UrlParseChannelMax')),
     'for(%s) > case(%s ~ "connection_timeout") > $m0 = %sconnection_timeout($m0, Some(std::time::Duration::from_millis(%s)))' % (QP, K, OPT, parse_to('u64', 'UrlParseConnectionTimeout')),
